@@ -9,7 +9,7 @@ TplN == 5
 
 ASSUME LemmaEncodable
 ASSUME LemmaEncodeRead({<<>>} \cup {<<x>> : x \in ArgsUpTo(3)} \cup {<<x, y>> : x \in ArgsUpTo(2), y \in ArgsUpTo(2)})
-ASSUME LemmaDecodeLiteral /\ LemmaDecodeOnce
+ASSUME LemmaDecodeLiteral /\ LemmaDecodeOnce /\ LemmaLenient
 ASSUME LemmaUnambiguous(IF Thorough THEN 5 ELSE 4)
 ASSUME FilesInside \cap {f \in FilesInside : \E i \in 1..Len(f) : HasSub(f[i], <<DOT, DOT>>)} = {<< <<46,46,46>>, IndexHtml>>}
 
